@@ -4,7 +4,7 @@
    inverse and width of every other class, "inputs untouched" and "deterministic" are evaluated on the implementation. *)
 From Coq Require Import Reals List Bool Arith.
 From Coquelicot Require Import Complex.
-From QV Require Import Sem Mat2 Toff2 Chain McxModel IrProps.
+From QV Require Import Sem Mat2 Toff2 Chain McxModel IrProps IrPropsRot.
 Import ListNotations.
 Open Scope nat_scope.
 
@@ -20,6 +20,18 @@ Theorem C15_spectator : forall c q v, (forall g, In g c -> ~ In q (squbits g)) -
   forall psi, srun c (setq q v psi) = setq q v (srun c psi).
 Proof. exact spectator. Qed.
 Print Assumptions C15_spectator.
+
+(* the same laws on the rotation / entangler IR of the multiplexer and top-down models *)
+Theorem C15_rot_inverse_right : forall c, Forall gwf2 c -> forall psi, run (c ++ ginv_list c) psi = psi.
+Proof. exact ginverse_right. Qed.
+Print Assumptions C15_rot_inverse_right.
+Theorem C15_rot_inverse_left : forall c, Forall gwf2 c -> forall psi, run (ginv_list c ++ c) psi = psi.
+Proof. exact ginverse_left. Qed.
+Print Assumptions C15_rot_inverse_left.
+Theorem C15_rot_spectator : forall c q v, (forall g, In g c -> ~ In q (gqubits g)) ->
+  forall psi, run c (setq q v psi) = setq q v (run c psi).
+Proof. exact gspectator. Qed.
+Print Assumptions C15_rot_spectator.
 
 Example ex_wf : Forall swf (toffoli CNone 0 1 2) /\ ~ In 5 (squbits (SCX 0 2)).
 Proof. split. repeat constructor; simpl; auto. simpl. intros [H|[H|H]]; auto; discriminate. Qed.
